@@ -596,7 +596,8 @@ ConfigsOf(t) ==
   CASE t = "zip" ->
          \* key 0 stands for an item that is the object None (nothing may be read into that)
          {[tool |-> t, par |-> [strict |-> b], data |-> d] :
-             b \in BOOLEAN, d \in UNION {DataSets(n, K01) : n \in 0..MaxSrc} \cup WideSets(K01)}
+             \* (two kinds of items for at most two sources, opaque items beyond: 31^3 data sets would be too many)
+             b \in BOOLEAN, d \in UNION {DataSets(n, IF n <= 2 THEN K01 ELSE K1) : n \in 0..MaxSrc} \cup WideSets(K01)}
          \cup {[tool |-> t, par |-> [strict |-> b, alias |-> TRUE], data |-> [i \in 1..n |-> d]] :
                 b \in BOOLEAN, n \in 2..(MaxSrc + 1), d \in SeqsUpTo(K1, MaxLen + 1)}
     [] t = "map" ->
@@ -633,7 +634,8 @@ ConfigsOf(t) ==
     [] t = "merge" ->
          UNION {{[tool |-> t, par |-> [key |-> b, rev |-> v], data |-> d] :
                    b \in BOOLEAN,
-                   d \in UNION {{dd \in DataSets(n, K12) :
+                   \* (three and more sources with at most three items each)
+                   d \in UNION {{dd \in [1..n -> SeqsUpTo(K12, IF n <= 2 THEN MaxLen ELSE 3)] :
                                    \A i \in 1..n : IF v THEN NonIncr(dd[i]) ELSE NonDecr(dd[i])} : n \in 0..MaxSrc}
                         \cup WideSets(K12)}
                 : v \in BOOLEAN}
